@@ -2,11 +2,18 @@
 
 Correspondence: random histories of new_pandas / attribute assignment / attribute deletion
 (references and whole spaces) / update_pandas (in place, with a new object, onto an object
-that is already referenced) / sheet setter / del_spec / close over up to 2 models, 2-3 spaces
-each, a growing pool of DataFrames (reused, so that values are shared between names, spaces
-and models), one other object, one Interface, and the files a.csv, b.xlsx, c.xlsx (sheet None /
-s1 / s2 / s3), run on the real modelx and on the Lean model `MxModel.IOSpec` (theorems in
-Props/C18.lean).  After every op are compared: model.iospecs as (value, path, sheet), every
+that is already referenced) / sheet setter / path setter / del_spec / close over up to 2 models,
+2-3 spaces each, a growing pool of DataFrames (reused, so that values are shared between names,
+spaces and models), one other object, one Interface, and the files a.csv, d.csv, b.xlsx, c.xlsx
+(sheet None / s1 / s2 / s3) under several SPELLINGS of their relative paths (`./a.csv`,
+`sub/../a.csv`, `sub/./a.csv` ...), run on the real modelx and on the Lean model `MxModel.IOSpec`
+(theorems in Props/C18.lean).
+
+Nothing is answered in the library's place: operations through the handles of CLOSED models and of
+DELETED spaces are performed for real and what modelx does is the observation (a closed model goes
+on working - it only left the registry -, a deleted space raises DeletedObjectError).  The harness
+answers `err dead` itself only for an op that names a model or space index that was never created
+(there is no object to call) or re-uses an index (the op language has one index per object).  After every op are compared: model.iospecs as (value, path, sheet), every
 defined reference with the identity of its value, ReferenceManager._valid_to_refs (value ->
 references, stale ones marked), IOManager.ios (key -> specs with sheet and file type), and
 ok/err of the op.
@@ -16,15 +23,18 @@ Oracle (implementation only), after every op and for every open model:
   O2 every registered spec's value is (`is`) the value of some reference of the model;
   O3 _valid_to_refs lists exactly the live defined references holding non-Interface values;
   O4 no spec disappears (other than by del_spec / close) while its value is still bound;
-  O5 within one file: csv holds one spec; Excel specs all name different sheets;
+  O5 within one file: csv holds one spec; Excel specs all name different sheets - a FILE is a
+     location on disk (the path normalised below the folder the model is written to), so two ios
+     whose keys are different spellings of one location count as one file;
   O6 a new_pandas that raised left specs and references exactly as they were;
-  O7 after close the IOManager has no io of the model;
+  O7 the IOManager has no io of a closed model - after the close and at every later point;
   O8 mxsys._check_sanity() does not raise;
   O9 (a sample in the quick tier, every clean history in the thorough tier) write + read_model:
      every spec'd value is read back equal under every name it was bound to.
-Four defects are known findings (new_pandas onto a scalar cells name, new_pandas twice for one value,
+Six defects are known findings (new_pandas onto a scalar cells name, new_pandas twice for one value,
 del model.S of a space holding tracked references, update_pandas onto an object that is already
-referenced); five others found by this check were repaired in /repo and their witnesses are
+referenced, new_pandas through the handle of a closed model, two spellings of one file location);
+five others found by this check were repaired in /repo and their witnesses are
 regression inputs (corpus/C18/fixed-*.json, no key, must pass).
 A failure is attributed to a known finding only if (a) the oracle recognised the trigger from the
 implementation's own state before the op and (b) the Lean model flags the same op with the same
@@ -44,7 +54,8 @@ from .. import core
 from ..impl import mx, close_all, quiet, err_kind
 from modelx.core.base import Interface
 
-PATHS = [("a.csv", "csv"), ("b.xlsx", "xl"), ("c.xlsx", "xl")]
+PATHS = [("a.csv", "csv"), ("b.xlsx", "xl"), ("c.xlsx", "xl"), ("d.csv", "csv")]
+ABS = "@/"          # op-language prefix: an absolute path below the folder the model will be written to
 SHEETS = ["-", "s1", "s2", "s3"]
 REFNAMES = ["x", "y", "z"]
 KEYS = {
@@ -52,12 +63,29 @@ KEYS = {
     "double-spec": "C18-double-spec",
     "del-space": "C18-del-space",
     "update-onto-referenced": "C18-update-onto-referenced",
+    "closed-model-new-spec": "C18-closed-model-new-spec",
+    "path-alias": "C18-path-alias",
+    "absolute-io": "C18-absolute-io-shared",
 }
+# a failure of these oracle items is attributed to the trigger also when the trigger was met EARLIER in the
+# history (the aliasing op itself need not break anything: two sheets of one workbook through two ios), provided
+# the implementation's state at the moment of the failure still shows the condition (World.state_flags)
+STICKY = {"path-alias": ("O5", "O9"), "absolute-io": ("O1", "O5", "O9")}
+
+
+def spell(rng, path, absolute=False):
+    """another spelling of a relative path (the same file, or a file in a sub folder)"""
+    q = rng.random()
+    if absolute and q < 0.25:
+        return ABS + path
+    if q < 0.72:
+        return path
+    return rng.choice(["./%s", "./%s", "sub/../%s", "sub/%s", "sub/%s", "sub/./%s", "x/../sub/%s", "sub//%s"]) % path
 
 
 # ----------------------------------------------------------------------------- generation
 
-def gen_history(rng, length, two_models_p=0.6, inherit=False):
+def gen_history(rng, length, two_models_p=0.6, inherit=False, absolute=False):
     """structured, mostly valid: a light shadow (which names are believed bound to what, which values
     believed to have a spec) steers the choice of arguments; it is only a heuristic"""
     ops = [["newmodel", "0"]]
@@ -81,7 +109,8 @@ def gen_history(rng, length, two_models_p=0.6, inherit=False):
 
     add_spaces(0)
     open_models = [0]
-    want_second = rng.random() < two_models_p and not inherit
+    closed_models = []
+    want_second = rng.random() < two_models_p and not inherit and not absolute
 
     def fresh():
         nvals[0] += 1
@@ -106,10 +135,16 @@ def gen_history(rng, length, two_models_p=0.6, inherit=False):
         return str(m), str(s)
 
     for _ in range(length):
-        if not open_models:
+        if not open_models and rng.random() < 0.25:
             break
-        m = rng.choice(open_models)
+        # the handles of a closed model keep working: go on using them
+        if closed_models and (not open_models or rng.random() < 0.3):
+            m = rng.choice(closed_models)
+        else:
+            m = rng.choice(open_models)
         r = rng.random()
+        if m in closed_models and r < 0.24 and rng.random() < 0.65:
+            r = 0.24 + r        # on a closed model: mostly assignments instead of new_pandas (a known finding)
         if inherit and rng.random() < 0.05 and len(spaces[m]) > 1:
             a, b = rng.sample(spaces[m], 2)
             ops.append([rng.choice(["addbase", "rmbase"]), str(m), str(max(a, b)), str(min(a, b))])
@@ -130,6 +165,7 @@ def gen_history(rng, length, two_models_p=0.6, inherit=False):
             else:
                 name = rng.choice(["c", "c", "f", "_b", "for"])
             path, ft = rng.choice(PATHS)
+            path = spell(rng, path, absolute)
             sheet = "-" if ft == "csv" else rng.choice(SHEETS[:3] + ["s1", "s2"])
             q = rng.random()
             plainly = bound_vals(m, with_spec=False)
@@ -204,10 +240,18 @@ def gen_history(rng, length, two_models_p=0.6, inherit=False):
                         bound[k_] = new
                 if (m, old) in specd:
                     specd[(m, new)] = specd.pop((m, old))
-        elif r < 0.91:
+        elif r < 0.89:
             sv = [v for v in bound_vals(m, with_spec=True) if specd[(m, v)][1] == "xl"]
             v = rng.choice(sv) if sv and rng.random() < 0.85 else any_df()
             ops.append(["sheet", str(m), v, rng.choice(SHEETS)])
+        elif r < 0.925:
+            sv = bound_vals(m, with_spec=True)
+            v = rng.choice(sv) if sv and rng.random() < 0.9 else any_df()
+            ft = specd[(m, v)][1] if (m, v) in specd else rng.choice(["csv", "xl"])
+            path = spell(rng, rng.choice([p for p, t in PATHS if t == ft]), absolute)
+            ops.append(["setpath", str(m), v, path])
+            if (m, v) in specd:
+                specd[(m, v)] = (path, ft)
         elif r < 0.95:
             sv = bound_vals(m, with_spec=True)
             v = rng.choice(sv) if sv and rng.random() < 0.85 else any_df()
@@ -215,7 +259,9 @@ def gen_history(rng, length, two_models_p=0.6, inherit=False):
             specd.pop((m, v), None)
         elif r < 0.975:
             ops.append(["close", str(m)])
-            open_models.remove(m)
+            if m in open_models:
+                open_models.remove(m)
+                closed_models.append(m)
         else:
             # malformed: operations on things that do not exist
             ops.append(rng.choice([
@@ -235,6 +281,7 @@ class World:
         self.models = {}       # index -> Model interface (also after close)
         self.open = set()
         self.spaces = {}       # (m, s) -> UserSpace interface (live)
+        self.handles = {}      # (m, s) -> UserSpace interface, also after the space was deleted
         self.used = set()      # owners ever used
         self.vals = {}         # token -> object
         self.ifaces = {}       # m -> Interface used as the value i0
@@ -272,10 +319,44 @@ class World:
         return "?"
 
     def parent(self, m, s):
-        return self.models[m] if s == 0 else self.spaces[(m, s)]
+        return self.models[m] if s == 0 else self.handles[(m, s)]
 
     def live(self, m, s):
-        return m in self.open and (s == 0 or (m, s) in self.spaces)
+        """a usable handle exists as far as the harness knows (model created - open or closed -, space
+        not deleted); used by the trigger recognisers only, never to answer an op"""
+        return m in self.models and (s == 0 or (m, s) in self.spaces)
+
+    def root(self, m):
+        """the folder model m is written to by the round trip"""
+        return os.path.join(self.tmp, "saved_m%d" % m)
+
+    def path_arg(self, m, path):
+        return os.path.join(self.root(m), path[len(ABS):]) if path.startswith(ABS) else path
+
+    def location(self, m, path):
+        """the file on disk a (relative or absolute) io path of model m denotes"""
+        p = str(path)
+        return os.path.normpath(p if os.path.isabs(p) else os.path.join(self.root(m), p))
+
+    def state_flags(self):
+        """conditions of the implementation's state that the sticky triggers are about"""
+        flags = set()
+        for m in self.models:
+            locs = {}
+            for path, _ in self.ios_of(m):
+                locs.setdefault(self.location(m, path), set()).add(path)
+            if any(len(v) > 1 for v in locs.values()):
+                flags.add("path-alias")
+        if any(grp is None for (grp, _) in mx.core.mxsys.iomanager.ios):
+            flags.add("absolute-io")
+        return flags
+
+    def ios_of(self, m):
+        """[(key path, io)] of model m; ios under absolute paths have no group - they are counted for
+        the model in the single-model stream that produces them"""
+        model = self.models[m]
+        return [(path, io) for (grp, path), io in mx.core.mxsys.iomanager.ios.items()
+                if grp is model or (grp is None and len(self.models) == 1)]
 
     # -- state read from the implementation
     def refs_of(self, m, defined_only=False):
@@ -290,9 +371,7 @@ class World:
         return res
 
     def registered(self, m):
-        model = self.models[m]
-        return [spec for (grp, _), io in mx.core.mxsys.iomanager.ios.items() if grp is model
-                for spec in io.specs.values()]
+        return [spec for _, io in self.ios_of(m) for spec in io.specs.values()]
 
     def owner_index(self, impl, m):
         if impl is self.models[m]._impl:
@@ -307,7 +386,7 @@ class World:
 
     def observe(self):
         specs, refs, v2r = [], [], []
-        for m in sorted(self.open):
+        for m in sorted(self.models):       # closed models too: they go on living through their handles
             model = self.models[m]
             try:
                 l = ["%s:%s:%s" % (self.tok_of(s.value, m), s.path.as_posix(), s.sheet or "-") for s in model.iospecs]
@@ -355,17 +434,20 @@ class World:
             self.open.add(m)
             self.ifaces[m] = model.new_space("Zz")
             return "ok"
+        # From here on an op is answered by the harness itself ("err dead") only if it names an index
+        # that was never created - there is no object to call.  Closed models and deleted spaces are
+        # used through their handles, for real.
         if kind == "close":
             m = int(op[1])
-            if m not in self.open:
+            if m not in self.models:
                 return "err dead"
             self.models[m].close()
             self.open.discard(m)
             return "ok"
         m = int(op[1])
-        if kind in ("update", "sheet", "delspec"):
-            if m not in self.open:
-                return "err dead"
+        if m not in self.models:
+            return "err dead"
+        if kind in ("update", "sheet", "delspec", "setpath"):
             model = self.models[m]
             if kind == "update":
                 if op[3][0] == "i":
@@ -377,39 +459,41 @@ class World:
                     model.update_pandas(old, new)
             elif kind == "sheet":
                 model.get_spec(self.val(op[2], m)).sheet = None if op[3] == "-" else op[3]
+            elif kind == "setpath":
+                model.get_spec(self.val(op[2], m)).path = self.path_arg(m, op[3])
             else:
                 model.del_spec(self.val(op[2], m))
             return "ok"
         s = int(op[2])
         if kind == "newspace":
-            if m not in self.open or s == 0 or (m, s) in self.used:
-                return "err dead"
+            if s == 0 or (m, s) in self.used:
+                return "err dead"           # the op language: one index per space, 0 is the model
             if len(op) > 4:
-                sp = self.models[m].new_space(op[3], bases=[self.spaces[(m, int(b))] for b in op[4].split(",")])
+                sp = self.models[m].new_space(op[3], bases=[self.handles[(m, int(b))] for b in op[4].split(",")])
             else:
                 sp = self.models[m].new_space(op[3])
             self.spaces[(m, s)] = sp
+            self.handles[(m, s)] = sp
             self.used.add((m, s))
             return "ok"
-        if not self.live(m, s):
+        if s != 0 and (m, s) not in self.handles:
             return "err dead"
         par = self.parent(m, s)
         if kind in ("addbase", "rmbase"):
             b = int(op[3])
-            if s == 0 or not self.live(m, b) or b == 0:
+            if (m, b) not in self.handles:
                 return "err dead"
             if kind == "addbase":
-                par.add_bases(self.spaces[(m, b)])
+                par.add_bases(self.handles[(m, b)])
             else:
-                par.remove_bases(self.spaces[(m, b)])
+                par.remove_bases(self.handles[(m, b)])
             return "ok"
         if kind == "newcells":
-            if s == 0:
-                return "err dead"
             par.new_cells(op[3], formula="lambda: 1" if op[4] == "1" else "lambda t: t")
             return "ok"
         if kind == "newpandas":
-            par.new_pandas(op[3], op[4], self.val(op[7], m), file_type="csv" if op[5] == "csv" else "excel",
+            par.new_pandas(op[3], self.path_arg(m, op[4]), self.val(op[7], m),
+                           file_type="csv" if op[5] == "csv" else "excel",
                            sheet=None if op[6] == "-" else op[6])
             return "ok"
         if kind == "bind":
@@ -421,7 +505,7 @@ class World:
                 for (mm, ss), sp in self.spaces.items():
                     if mm == m and sp.name == op[3]:
                         target = (mm, ss)
-            if target is not None:
+            if target is not None and par is self.models[m]:
                 sp = self.spaces[target]
                 impl = sp._impl
                 dirty = any(not isinstance(r.interface, Interface) for r in impl.own_refs.values())
@@ -475,6 +559,7 @@ class Snapshot:
         self.refs = {m: [(s, n, id(r.interface)) for s, n, r in w.refs_of(m)] for m in w.open}
         self.allrefs = {m: list(w.refs_of(m)) for m in w.open}
         self.open = set(w.open)
+        self.closed = set(w.models) - set(w.open)
 
 
 def recognise(w, op, before_state):
@@ -488,7 +573,7 @@ def pre_trigger(w, op):
     trig = []
     try:
         m = int(op[1])
-        if m not in w.open:
+        if m not in w.models:
             return trig
         model = w.models[m]
         iom = mx.core.mxsys.iomanager
@@ -504,7 +589,21 @@ def pre_trigger(w, op):
                 trig.append("cells-name")
             if iom.get_spec_from_value(model, data) is not None:
                 trig.append("double-spec")
-        elif kind == "del":
+            if m not in w.open:
+                trig.append("closed-model-new-spec")
+        if kind in ("newpandas", "setpath"):
+            # another key of the model denotes the requested file in another spelling
+            import pathlib
+            arg = w.path_arg(m, op[4] if kind == "newpandas" else op[3])
+            key, loc = pathlib.Path(arg), w.location(m, arg)
+            if any(path != key and w.location(m, path) == loc for path, _ in w.ios_of(m)):
+                trig.append("path-alias")
+            # ios under absolute paths have no group: one io per path for the whole session
+            if key.is_absolute() or (kind == "setpath" and any(
+                    grp is None and any(sp.value is w.val(op[2], m) for sp in io.specs.values())
+                    for (grp, _), io in iom.ios.items())):
+                trig.append("absolute-io")
+        if kind == "del":
             if s == 0:
                 for (mm, ss), sp in w.spaces.items():
                     if mm == m and sp.name == name:
@@ -557,13 +656,20 @@ def oracle_step(w, op, res, snap, out_fail):
             have[vid] = set(ids)
         if dup or want != have:
             out_fail("_valid_to_refs does not list exactly the references bound to each value", "O3")
-        # O5
-        for (grp, path), io in iom.ios.items():
-            if grp is model and len(io.specs) > 1:
-                sheets = [s.sheet for s in io.specs.values()]
-                if io.file_type == "csv" or None in sheets or len(set(sheets)) != len(sheets):
+        # O5: a file is a location on disk; all the ios whose keys denote it share it
+        files = {}
+        for path, io in w.ios_of(m):
+            files.setdefault(w.location(m, path), []).append((path, io))
+        for loc, group in sorted(files.items()):
+            claims = [(path, io, s) for path, io in group for s in io.specs.values()]
+            if len(claims) > 1:
+                sheets = [s.sheet for _, _, s in claims]
+                if (any(io.file_type == "csv" for _, io, _ in claims) or None in sheets
+                        or len(set(sheets)) != len(sheets)):
                     out_fail("two specs claim the same file location (%s: sheets %s)" % (
-                        path.as_posix(), sorted(str(x) for x in sheets)), "O5")
+                        " = ".join(sorted({path.as_posix() if not path.is_absolute() else "<abs>/" + path.name
+                                           for path, _, _ in claims})),
+                        sorted(str(x) for x in sheets)), "O5")
         # O4
         if m in snap.reg and kind not in ("close", "delspec"):
             now = set(map(id, reg))
@@ -577,9 +683,10 @@ def oracle_step(w, op, res, snap, out_fail):
             if snap.refs.get(m) != [(s, n, id(r.interface)) for s, n, r in refs]:
                 out_fail("a rejected new_pandas changed the references", "O6")
     # O7
-    for m in snap.open - w.open:
+    for m in sorted(set(w.models) - w.open):
         if any(grp is w.models[m] for (grp, _) in iom.ios):
-            out_fail("after close the IOManager still holds an io of the model", "O7")
+            out_fail("the IOManager holds an io of a closed model" if m in snap.closed else
+                     "after close the IOManager still holds an io of the model", "O7")
     # O8
     try:
         mx.core.mxsys._check_sanity()
@@ -684,7 +791,7 @@ def run_history(ops, out, stats, do_roundtrip=False, with_model=True):
                 got = []
                 oracle_step(w, op, res, snap, lambda what, item: got.append((what, item)))
                 if got:
-                    failures.append((k, got[0][0], got[0][1], trig))
+                    failures.append((k, got[0][0], got[0][1], trig, w.state_flags()))
                     silent = True
                 elif trig:
                     # the trigger predicates are conservative (e.g. the op was rejected for another reason)
@@ -702,7 +809,7 @@ def run_history(ops, out, stats, do_roundtrip=False, with_model=True):
                 w, lambda what, item: got.append((what, item)))
             stats["roundtrips"] = stats.get("roundtrips", 0) + 1
             if got:
-                failures.append((executed - 1, got[0][0], got[0][1], []))
+                failures.append((executed - 1, got[0][0], got[0][1], [], w.state_flags()))
         if not silent and not w.cut:
             stats["hist_oracle_active_to_end"] = stats.get("hist_oracle_active_to_end", 0) + 1
         if w.cut:
@@ -729,11 +836,17 @@ def run_history(ops, out, stats, do_roundtrip=False, with_model=True):
             for name in t:
                 stats["trigger:" + name] = stats.get("trigger:" + name, 0) + 1
         # ---- attribute failures
-        for (k, what, item, trig) in failures:
+        for (k, what, item, trig, flags) in failures:
             key = None
             # known only if the Lean model flags the same op with the same trigger predicate; in the
             # inheritance stream (no model) the implementation-side recogniser alone decides
             cands = [t for t in trig if t in model_trig.get(k, [])] if with_model else list(trig)
+            impl_seen = {t for j, tl in trig_at.items() if j <= k for t in tl}
+            model_seen = {t for j, tl in model_trig.items() if j <= k for t in tl}
+            for t in sorted(flags):
+                if (item in STICKY[t] and t in impl_seen and (t in model_seen or not with_model)
+                        and t not in cands):
+                    cands.append(t)
             if cands:
                 key = KEYS[cands[0]]
             out.fail("%s [%s]" % (what, item), ops[:k + 1],
@@ -747,12 +860,19 @@ def run_history(ops, out, stats, do_roundtrip=False, with_model=True):
         shutil.rmtree(tmp, ignore_errors=True)
 
 
+def no_model(h):
+    """histories outside the Lean model: inheritance between spaces, absolute paths"""
+    return any(o[0] in ("addbase", "rmbase") or (o[0] == "newspace" and len(o) > 4)
+               or (o[0] == "newpandas" and o[4].startswith(ABS))
+               or (o[0] == "setpath" and o[3].startswith(ABS)) for o in h)
+
+
 def shrink_failure(f, budget=160):
     """delta debugging on the op list of an unattributed oracle failure: drop ops one at a time (last to
     first, repeated) while the same oracle item still fails, still unattributed"""
     item = (f.get("detail") or {}).get("oracle")
     ops = list(f["history"])
-    inherit = any(o[0] in ("addbase", "rmbase") or (o[0] == "newspace" and len(o) > 4) for o in ops)
+    inherit = no_model(ops)
 
     def still_fails(cand):
         o = core.Outcome()
@@ -813,10 +933,20 @@ def run(ctx, out):
             samples.append([" ".join(o) for o in h])
     stats["inheritance_stream"] = dict(sorted(istats.items()))
     stats["inheritance_stream"]["histories"] = n_inh
+    # oracle-only stream: one model, some paths absolute (below the folder the model is written to, so that
+    # they can denote the same files as relative ones)
+    n_abs = ctx.n(100, 2000)
+    astats = {}
+    for i in range(n_abs):
+        h = gen_history(ctx.rng("absolute", i), length, absolute=True)
+        feats, executed = run_history(h, out, astats, do_roundtrip=(i % rt_every == 0), with_model=False)
+        total_ops += executed
+        seen.add(repr(h))
+    stats["absolute_path_stream"] = dict(sorted(astats.items()))
+    stats["absolute_path_stream"]["histories"] = n_abs
     for i, h in enumerate(hists):
-        inh = any(o[0] in ("addbase", "rmbase") or (o[0] == "newspace" and len(o) > 4) for o in h)
         feats, executed = run_history(h, out, stats, do_roundtrip=(i < len(corpus) or i % rt_every == 0),
-                                      with_model=not inh)
+                                      with_model=not no_model(h))
         total_ops += executed
         txt = repr(h)
         seen.add(txt)
@@ -835,7 +965,8 @@ def run(ctx, out):
         "evaluations": total_ops,
         "distinct_nontrivial": len(nontrivial),
         "rule": "histories of ~%d ops (new_pandas / assignment / deletion of references and spaces / update_pandas / "
-                "sheet setter / del_spec / close) over <= 2 models x 2-3 spaces, files %s, sheets %s; evaluations = ops "
+"sheet setter / path setter / del_spec / close, also through the handles of closed models and deleted "
+                "spaces) over <= 2 models x 2-3 spaces, files %s under several spellings, sheets %s; evaluations = ops "
                 "executed on modelx with all oracles; distinct by op text; non-trivial = some spec'd value was bound to "
                 ">= 2 references at once AND some spec was released by a deletion or rebinding" % (
                     length, [p for p, _ in PATHS], SHEETS),
@@ -844,13 +975,14 @@ def run(ctx, out):
         "input_distribution": dict(sorted(stats.items(), key=lambda kv: kv[0])),
         "corpus_cases": len(corpus),
     })
-    out.assumptions.append("pandas/openpyxl file round trip is exercised (O9), not modelled; absolute paths (shared "
-                           "between models), inheritance between spaces, new_module, new_excel_range and the path "
-                           "setter are not covered")
+    out.assumptions.append("pandas/openpyxl file round trip is exercised (O9), not modelled; absolute paths and "
+                           "inheritance between spaces are exercised by oracle-only streams (no Lean model), "
+                           "absolute paths in ONE model only (ios under absolute paths have no group and are shared "
+                           "between models); new_module, new_excel_range, the path setter from an absolute to a "
+                           "relative path, case-insensitive file systems and symbolic links are not covered")
 
 
 def replay(ctx, payload, out):
     h = payload.get("history") or (payload.get("unexplained") or [{}])[-1].get("detail", {}).get("history")
     if h:
-        inherit = any(o[0] in ("addbase", "rmbase") or (o[0] == "newspace" and len(o) > 4) for o in h)
-        run_history(h, out, {}, do_roundtrip=True, with_model=not inherit)
+        run_history(h, out, {}, do_roundtrip=True, with_model=not no_model(h))
